@@ -49,3 +49,8 @@ Definition spectrum (fr : dframe) (use_mean : bool) : list Q :=
   tab (F fr) (fun j => let s := qsum (column (data fr) j) in if use_mean then s / nq (T fr) else s).
 Definition timeseries (fr : dframe) (use_mean : bool) : list Q :=
   map (fun row => let s := qsum row in if use_mean then s / nq (F fr) else s) (data fr).
+(* normalisation of an integrated vector: x -> (x - m) / s, with m and s the (sigma-clipped) mean and deviation of the vector *)
+Definition normalise (m s : Q) (xs : list Q) : list Q := map (fun x => (x - m) / s) xs.
+Definition vmean (l : list Q) : Q := qsum l / nq (length l).
+Fixpoint vsumsq (l : list Q) (mu : Q) : Q := match l with [] => 0 | x :: r => (x - mu) * (x - mu) + vsumsq r mu end.
+Definition vvar (l : list Q) : Q := vsumsq l (vmean l) / nq (length l).
